@@ -185,6 +185,26 @@ def check(run):
                 ops.append({"op": "pub", "c": 9, "t": t, "p": "m%d" % pid, "q": pid % 2, "id": pid})
         ops.append({"op": "quiesce"})
         bscns.append({"nodes": [1, 2] if two else [1], "ops": ops})
+    # several filters in one SUBSCRIBE / UNSUBSCRIBE packet: every ordered pair (and some triples) of short filters
+    mf = [["a"], ["a", "b"], ["a", "#"], ["+", "b"], ["b"], ["#"], ["a", "+"]]
+    pairs = [(f1, f2) for f1 in mf for f2 in mf if f1 != f2]
+    if not thorough:
+        pairs = pairs[:: 2]
+    for k, (f1, f2) in enumerate(pairs):
+        f3 = mf[(k * 3 + 1) % len(mf)]
+        fs = [f1, f2] + ([f3] if k % 4 == 0 and f3 not in (f1, f2) else [])
+        ops = [{"op": "connect", "c": 1, "n": 1, "client": "s1", "ka": 600}, {"op": "connect", "c": 9, "n": 1, "client": "pub", "ka": 600},
+               {"op": "sub", "c": 1, "id": 10, "fs": [{"f": f, "q": i % 2} for i, f in enumerate(fs)]}]
+        pid = 0
+        for t in ptopics:
+            pid += 1
+            ops.append({"op": "pub", "c": 9, "t": t, "p": "x%d" % pid, "q": pid % 2, "id": pid})
+        ops.append({"op": "unsub", "c": 1, "id": 11, "fs": [{"f": f, "q": 0} for f in fs[:2]]})
+        for t in ptopics:
+            pid += 1
+            ops.append({"op": "pub", "c": 9, "t": t, "p": "x%d" % pid, "q": pid % 2, "id": pid})
+        ops.append({"op": "quiesce"})
+        bscns.append({"nodes": [1], "ops": ops})
     btpath, crashes = brokerlib.execute(run, bscns, "c01b", shards=12)
     if crashes:
         raise vlib.Inconclusive("broker driver died: %s" % crashes[0][2][-2000:])
@@ -219,7 +239,7 @@ def check(run):
         "samples": [scns[0]["ops"], scns[len(scns) // 2]["ops"], scns[-1], {"trace_excerpt": vlib.head_events(tpath, 5)}],
     }, ["filters with '#' in a non-final position or '+'/'#' inside a level are invalid in MQTT and excluded",
         "topic/filter strings are built by the harness by joining level sequences with '/'; the empty string (single empty level) is excluded",
-        "broker level: an even sample of the TLC-generated histories is replayed through two real sessions (on one node, or on two nodes with at-least-once gossip) with two publishes after every step; BrokerTrace requires one PUBLISH per matching active subscription and none otherwise"],
+        "broker level: an even sample of the TLC-generated histories is replayed through two real sessions (on one node, or on two nodes with at-least-once gossip) with two publishes after every step; plus SUBSCRIBE / UNSUBSCRIBE packets carrying two or three filters (every ordered pair of seven short filters), six publishes after each; BrokerTrace requires one PUBLISH per matching active subscription and none otherwise"],
         violations=v.n_new)
     run.log("validated %d scenarios, %d rejected (%d known)" % (validated, len(rejected), v.n_known))
     return rc
